@@ -3,7 +3,7 @@ import PoxModel.Proofs.PacketHdr
 # TCP option lists survive `tcp_opt.pack` → `tcp.parse_options` (C14; core only)
 -/
 namespace Pox.Packet
-open Pox Pox.Layout Pox.Checksum
+open Pox Pox.PktLayout Pox.Checksum
 
 /-- option values `tcp_opt.pack` can serialise and `parse_options` reads back as the same option -/
 def TcpOpt.OK : TcpOpt → Prop
